@@ -31,15 +31,23 @@ def anySuffix (f : Tok → Bool) : Tok → Bool
   | [] => f []
   | c :: s => f (c :: s) || anySuffix f s
 
+/-- the class ends at the next `]` (`pre`: what was skipped before the search) -/
+def closeAt (pre q : Tok) : Option (Tok × Tok) :=
+  if q.contains ']' then some (pre ++ q.takeWhile (· != ']'), (q.dropWhile (· != ']')).tail) else none
+
+/-- a `]` right at the start (after the optional `!`) does not close the class -/
+def afterBang (pre q : Tok) : Option (Tok × Tok) :=
+  match q with
+  | ']' :: q' => closeAt (pre ++ [']']) q'
+  | _ => closeAt pre q
+
 /-- the text after a `[`: where `translate` finds the end of the class.  An optional `!` and then an optional `]` are
     skipped, the class ends at the next `]`; `(body, rest)`: the characters between the brackets and what follows the
     closing one.  `none`: there is no closing `]` — the `[` is a literal and the scan goes on right after it. -/
 def splitClass (p : Tok) : Option (Tok × Tok) :=
-  let pre1 : Tok := if p.head? = some '!' then ['!'] else []
-  let q1 := if p.head? = some '!' then p.tail else p
-  let pre2 : Tok := if q1.head? = some ']' then pre1 ++ [']'] else pre1
-  let q2 := if q1.head? = some ']' then q1.tail else q1
-  if q2.contains ']' then some (pre2 ++ q2.takeWhile (· != ']'), (q2.dropWhile (· != ']')).tail) else none
+  match p with
+  | '!' :: q => afterBang ['!'] q
+  | _ => afterBang [] p
 
 /-- `translate` cuts the class body at the hyphens that make ranges: the search starts after the first character
     (after the second when the body starts with `!`) and, after a hyphen, skips the range end and one more character
